@@ -296,7 +296,7 @@ func (w *world) buildRegistry() {
 		var token common.Address
 		switch kind {
 		case tkExt:
-			token = w.deploy(w.bctx(), erc20contracts.ERC20MinterBurnerDecimalsContract, "Ext "+label, "EXT", uint8(6))
+			token = w.deploy(w.bctx(), erc20contracts.ERC20MinterBurnerDecimalsContract, "ext"+label, "EXT", uint8(6))
 		case tkSiphon:
 			token = w.deploy(w.bctx(), erc20contracts.ERC20DirectBalanceManipulationContract, big.NewInt(1000000))
 		case tkDelayed:
@@ -418,6 +418,15 @@ func (w *world) viewWord(ctx sdk.Context, a abi.ABI, token common.Address, metho
 	return fmt.Sprint(out[0])
 }
 
+// bankBalance never panics (bank's GetBalance builds a Coin and panics on a
+// string that is not a denomination).
+func (w *world) bankBalance(ctx sdk.Context, who sdk.AccAddress, denom string) string {
+	if sdk.ValidateDenom(denom) != nil {
+		return "invalid-denom"
+	}
+	return w.tpB.BankKeeper.GetBalance(ctx, who, denom).Amount.String()
+}
+
 // obs is what the oracle looks at on one branch of the state.
 type obs struct {
 	Voucher   string            `json:"receiver_voucher"`
@@ -430,9 +439,12 @@ type obs struct {
 
 func (w *world) observe(ctx sdk.Context, recv sdk.AccAddress, voucher string) obs {
 	o := obs{Tokens: map[string]string{}, ModTokens: map[string]string{}, TokSupply: map[string]string{}}
-	o.Voucher = w.tpB.BankKeeper.GetBalance(ctx, recv, voucher).Amount.String()
-	o.Escrow = w.tpB.BankKeeper.GetBalance(ctx, w.aggAcc, voucher).Amount.String()
-	o.Supply = w.tpB.BankKeeper.GetSupply(ctx, voucher).Amount.String()
+	o.Voucher = w.bankBalance(ctx, recv, voucher)
+	o.Escrow = w.bankBalance(ctx, w.aggAcc, voucher)
+	o.Supply = "invalid-denom"
+	if sdk.ValidateDenom(voucher) == nil {
+		o.Supply = w.tpB.BankKeeper.GetSupply(ctx, voucher).Amount.String()
+	}
 	eth := common.BytesToAddress(recv.Bytes())
 	for _, t := range w.tokens {
 		o.Tokens[t.Hex()] = w.balanceOf(ctx, t, eth)
